@@ -309,5 +309,19 @@ def check_config(ctx, F, cfg):
             and b.dominates(fbi, pi) and b.dominates(bi, fbi)
         detail += "; push argument is the formatted string: %s; fetch_add -> format -> push dominate the return" % (a1 is not None and a1["l"] in flows)
     ctx.ob("C20.R2.single-push-of-formatted-name", FUNC + tag, fwhere, ok_push, "dataflow+dominance", detail)
+    # the formatted String reaches push unmodified: nothing borrows it mutably or stores into it on the way
+    tampered = []
+    for bi2, t in b.calls():
+        for a in t["args"]:
+            r = resolve_ref_local(b, a)
+            if r is not None and r in flows and r != buf:
+                q = operand_place(a)
+                if q is not None and b.local_ty(q["l"]).startswith("&mut"):
+                    tampered.append(callee_name(t))
+    for bi2, si, s_ in b.stmts():
+        if s_["s"] == "assign" and s_["lhs"]["p"] and s_["lhs"]["l"] in flows:
+            tampered.append("store into the formatted string")
+    ctx.ob("C20.R2.name-not-modified-after-format", FUNC + tag, fwhere, not tampered, "use-enumeration",
+           "mutable uses of the formatted name between format! and push: %s" % tampered)
     ctx.count("counter-use-sites" + tag, len(users.get(FUNC, [])))
     ctx.floor("counter-use-sites" + tag, 1)
